@@ -1,5 +1,6 @@
 (* C15 - "no tag is repeated" at the level of the Tag objects.  Tag.__init__ lower-cases its three parts, so two argument
-   triples that differ only in case are the same tag.  The NoDup theorems of TagsProofs.v are about the argument triples;
+   triples that differ only in case are the same tag.  [lower] is the exact str.lower() (TagsModel), so the statements hold for
+   any Unicode text: e.g. U+212A KELVIN SIGN and "k" are the same platform (kelvin_repeats).  The NoDup theorems of TagsProofs.v are about the argument triples;
    here they are lifted to [map lower_tag]: the hypothesis "the inputs have no repeats" is read after lower-casing, and the
    explicit ABIs must not contain a differently-cased spelling of abi3 / none (list.remove and `"none" in abis` compare the
    raw text).  Counterexamples show that these readings are necessary.  Also: a boolean duplicate test used for the
@@ -35,9 +36,9 @@ Proof.
   rewrite !map_map. apply map_ext. intros p. reflexivity.
 Qed.
 Lemma lower_cp v : lower (s_cp ++ nodot v) = s_cp ++ nodot v.
-Proof. now rewrite lower_app, lower_nodot. Qed.
+Proof. now apply lower_pfx_nodot. Qed.
 Lemma lower_py v : lower (s_py ++ nodot v) = s_py ++ nodot v.
-Proof. now rewrite lower_app, lower_nodot. Qed.
+Proof. now apply lower_pfx_nodot. Qed.
 Lemma lower_cp2 pv : lower (s_cp ++ nodot2 pv) = s_cp ++ nodot2 pv.
 Proof. apply lower_cp. Qed.
 Lemma dn_nodot M : dn M = nodot [M].
@@ -174,3 +175,13 @@ Theorem compatible_repeats :
   ~ NoDup (map lower_tag (compatible_tags (3, [])%nat None [s_any])) /\
   ~ NoDup (map lower_tag (compatible_tags (3, [1])%nat (Some (s_py ++ [51])) [[112]])).
 Proof. split; apply has_dup_sound; vm_compute; reflexivity. Qed.
+
+(* outside ASCII too: "\u212a" (KELVIN SIGN) lower-cases to "k", so platforms ["\u212a"; "k"] are one platform twice: the
+   hypothesis NoDup (map lower ps) fails, and the sequence does repeat every tag *)
+Theorem kelvin_repeats :
+  NoDup [[8490]; [107]] /\ ~ NoDup (map lower [[8490]; [107]]) /\
+  ~ NoDup (map lower_tag (cpython_tags (3, [9])%nat [s_cp ++ [51; 57]] [[8490]; [107]])).
+Proof.
+  split; [constructor; [intros [E|[]]; discriminate E | constructor; [intros []|constructor]]|].
+  split; [intros H; vm_compute in H; inversion H as [|x l N _]; apply N; now left | apply has_dup_sound; vm_compute; reflexivity].
+Qed.
